@@ -149,6 +149,12 @@ type Op struct {
 type Case struct {
 	Base string `json:"base"`
 	Ops  []Op   `json:"ops"`
+	// Reuse: the caller switches connection reuse on (Runtime.EnableConnectionReuse): "before" the first call,
+	// "between" the first and the second call of the case, "" never. (r6)
+	Reuse string `json:"reuse,omitempty"`
+	// TailEOF: the transport delivers the last bytes of a response body together with io.EOF (what net/http does at the
+	// end of a length-delimited body) rather than in a read of their own
+	TailEOF bool `json:"tail_eof,omitempty"`
 }
 
 const (
@@ -506,9 +512,15 @@ func Check(c Case) *kit.Violation {
 		return kit.Failf("SPEC the generated description is not accepted: %v\n%s", err, raw)
 	}
 
-	w := &wire{h: handler}
+	w := &wire{h: handler, tailEOF: c.TailEOF}
 	rt := client.New("example.test", c.Base, []string{"http"})
 	rt.Transport = checkedWire{w}
+	if c.Reuse == "before" {
+		if v := kit.Guard("Runtime.EnableConnectionReuse", rt.EnableConnectionReuse); v != nil {
+			return v
+		}
+	}
+	ncalls := 0
 
 	for oi := range c.Ops {
 		op := c.Ops[oi]
@@ -521,6 +533,14 @@ func Check(c Case) *kit.Violation {
 			o = obs{}
 			w.served = 0
 			where := fmt.Sprintf("base=%q %s %s call %d", c.Base, op.Method, op.Tmpl, ci)
+			if ncalls++; ncalls == 2 && c.Reuse == "between" {
+				if v := kit.Guard("Runtime.EnableConnectionReuse", rt.EnableConnectionReuse); v != nil {
+					return v
+				}
+			}
+			if c.Reuse == "before" || c.Reuse == "between" && ncalls >= 2 {
+				where += " (connection reuse switched on)"
+			}
 			if v := submit(rt, w, oi, op, call, &o, where); v != nil {
 				return v
 			}
